@@ -35,8 +35,8 @@ theorem count_translated (cmp : Float → Float → Option HllCount.Cmp) (s : Hl
     HllCount.countWith cmp s =
       (let m := Float.ofNat s.regs.size
        let e := HllCount.am s.regs.size * m * m * (1 / ps.foldl (· + ·) 0)
-       (if e ≤ 5 * m then HllCount.estimateBias cmp s.b e else some 0).map fun bv =>
-         hll_count (α := Float) s.regs.size (HllCount.am s.regs.size) (ps.foldl (· + ·) 0) bv (zeros s) thr) :=
+       (if e ≤ 5 * m then HllCount.estimateBias cmp s.b e else some 0).bind fun bv =>
+         (hll_count (α := Float) s.regs.size (HllCount.am s.regs.size) (ps.foldl (· + ·) 0) bv (zeros s) thr).ret?) :=
   hll_count_float cmp s ps thr hps hthr
 
 end Pds.Tie.C03
